@@ -123,6 +123,16 @@ let handle (line : Stdlib.String.t) : Stdlib.String.t =
       (* styled <guard ops|-> <no_color> <tty> *)
       let d = Stdlib.String.fold_left (fun d c -> match c with 'N' -> guard_step d GNew | 'D' | 'F' -> guard_step d GDrop | _ -> d) O f.(1) in
       if styled (plain_flag d) (f.(2) = "1") (f.(3) = "1") then "1" else "0"
+  | "mspan" ->
+      (* mspan <xsrc> <n> (ls cs le ce)*n : every entry's span is computed on its own *)
+      let t = text_of_bytes (unhex f.(1)) in
+      let n = int_of_string f.(2) in
+      let q i = n_of_int (int_of_string f.(i)) in
+      let sp = List.init n (fun i ->
+        let b = 3 + 4 * i in
+        let (s, e) = span_of t (q b) (q (b + 1)) (q (b + 2)) (q (b + 3)) in
+        Printf.sprintf "%d:%d" (int_of_n s) (int_of_n e)) in
+      Printf.sprintf "spans %s hdr=1 lbls=%d" (Stdlib.String.concat "," sp) n
   | "fsclear" -> Hashtbl.reset files; "ok"
   | "fs" -> Hashtbl.replace files (unhex f.(1)) (); "ok"
   | "abspath" | "abspath_old" ->
